@@ -207,6 +207,30 @@ func checkPrefix(docs map[string]*kit.Doc, ref, got []zoekt.FileMatch, c *c22Cas
 		if err != nil {
 			if d, ok := err.(*kit.Discrepancy); ok {
 				d.Detail = what + ": " + d.Detail
+				if d.Kind == "cut-not-last" && oneShot != nil {
+					// A file cut by the truncation of a partial aggregate stays
+					// cut when later results rank below it. Attribute to that
+					// known finding only if ranking and truncating all
+					// per-shard results at once cuts nothing but the last file.
+					alt := oneShot()
+					ok := len(alt) > 0
+					for j := range alt {
+						ra := refByKey[kit.Key(alt[j].Repository, alt[j].FileName, alt[j].Checksum)]
+						if ra == nil {
+							ok = false
+							break
+						}
+						if _, err := checkCutFile(docs[kit.Key(alt[j].Repository, alt[j].FileName, alt[j].Checksum)], ra, &alt[j], c.Chunk, c.Context, j == len(alt)-1); err != nil {
+							if dd, isD := err.(*kit.Discrepancy); !isD || dd.Known == "" {
+								ok = false
+								break
+							}
+						}
+					}
+					if ok {
+						d.Known = "C22-partial-aggregate-truncation"
+					}
+				}
 			}
 			return false, err
 		}
